@@ -4,9 +4,10 @@ import os
 import random
 import shutil
 import tempfile
+import zlib
 
 from engine import SPEC, gen_states, pool_map
-from readers import bgzf_blocks, eol_for, load_pickle, read_text, run_cli, split_tag, write_text
+from readers import bgzf_blocks, join_lines, load_pickle, read_text, run_cli, split_tag, write_text
 
 GRAPHS = {"a": json.load(open(os.path.join(SPEC, "data", "sort_graph.json"))), "b": json.load(open(os.path.join(SPEC, "data", "sort_graph_b.json")))}
 GRAPH = GRAPHS["a"]      # node ids and lengths are the same in both taggings
@@ -30,6 +31,8 @@ def gaf_line(k, r, pad=0):
         opt.append("zz:Z:" + "p" * pad)
     path = "".join(o + n for o, n in r["walk"])
     name = f"r{k}" if pad != 61 else f"r\u00e9ad\u00b5{k}"       # pad 61 marks the file with non-ASCII read names
+    if pad != 61 and k % 3 == 2:       # read names are free text: FASTQ-style '@...', '#...', one made of digits only
+        name = ["@SRR12.%d" % k, "#7_tile%d" % k, "%d" % (1000 + k)][(k // 3) % 3]
     return "\t".join([name, str(L + 3), "2", str(L + 2), "+-"[(k // 2) % 2], path, str(plen), str(r["ps"]), str(r["pe"]), str(L), str(L), str((k * 13) % 61)] + opt)
 
 
@@ -66,13 +69,16 @@ def line_starts(path, bgzf):
 def run_sort_case(job):
     cid, recs, mode, in_storage, out_bgzip, outind, pad, block = job[:8]
     variant = job[8] if len(job) > 8 else "a"
+    import readers as _rd
+
+    _rd.CASE = str(cid)
     d = tempfile.mkdtemp(prefix="sort_")
     try:
         gfa = os.path.join(d, "g.gfa")
         write_text(gfa, gfa_text(variant))
         lines = [gaf_line(k + 1, r, pad) for k, r in enumerate(recs)]
         gaf = os.path.join(d, "in.gaf" + (".gz" if in_storage == "bgzf" else ""))
-        write_text(gaf, "\n".join(lines) + eol_for(cid), in_storage, block=block)
+        write_text(gaf, join_lines(lines, cid), in_storage, block=block)
         out = os.path.join(d, "out.gaf" + (".gz" if out_bgzip else ""))
         to_stdout = mode != "C10" and not out_bgzip and not outind and pad == 0 and len(recs) % 4 == 3
         argv = ["sort", gaf, gfa] + ([] if to_stdout else ["--outgaf", out])
@@ -82,7 +88,8 @@ def run_sort_case(job):
         if outind:
             gsi_path = os.path.join(d, "my.index")
             argv += ["--outind", gsi_path]
-        r = run_cli(argv, timeout=60)
+        # with --outind every other case is run from inside the data directory, the index named by a bare file name
+        r = run_cli(argv, timeout=60, cwd_rel=(zlib.crc32(cid.encode()) % 2 == 0) if outind else None)
         if to_stdout and r["status"] == "ok":      # no --outgaf: the sorted records go to standard output
             with open(out, "w") as f:
                 f.write(r["stdout"])
